@@ -42,6 +42,7 @@ type image struct {
 	heavy    bool // large image: sample selectors instead of trying all
 	pristine bool
 	synth    bool // built by synth.go
+	outline  string
 	// built by bpm.go: the manifests must parse and PCR0_DATA must be measurable
 	manifests bool
 	onlyIntel bool // skip the walker/selectors part (same FFS layout as the bundled image)
@@ -365,6 +366,12 @@ func (r *run) walker(addOffset int64, nStopVariants int) (reported []visited) {
 				}
 			}
 			in := map[string]interface{}{"image": r.im.name, "fallback": fb, "add_offset": addOffset, "stop_variant": variant}
+			if r.im.synth {
+				in["image_outline"] = r.im.outline
+				if len(r.im.data) <= 0x3000 {
+					in["image_hex"] = fmt.Sprintf("%x", r.im.data)
+				}
+			}
 			if len(known) > 0 {
 				in["nodes"] = head(known, 6)
 				ctx.OracleFailKnown(idx, findD23, fmt.Sprintf("%d visited node(s) below a non-processed section get a Range that does not address their bytes; first: %s", len(known), known[0]), siteWalker, in)
